@@ -347,8 +347,12 @@ def check_program(sess: Session, src: str, calls: list[tuple[str, list[Any]]], r
 		check_program(Session(ctx_of(sess)), src, calls, alone, session, 'replay')
 		if {f.key for f in alone.findings} != {d['key'] for d in dis}:
 			history = [{'program': p, 'call': [[x[0], repr(list(x[1]))] for x in c]} for p, c in sess.history]
+	# the replay carries the calls of the module-level function the failing site stands in (else the first three)
+	spans = [(n.lineno, n.end_lineno or n.lineno, n.name) for n in ast.parse(src).body if isinstance(n, (ast.FunctionDef, ast.ClassDef))] if dis else []
 	for d in dis:
-		fd = finding_of(d, src, calls[:3], session)
+		inside = {nm for lo, hi, nm in spans if lo <= d['span'][0] <= hi}
+		own = [c for c in calls if c[0] in inside][:3]
+		fd = finding_of(d, src, own or calls[:3], session)
 		if history is not None:
 			fd.replay['history'] = history
 		res.findings.append(fd)
@@ -370,14 +374,16 @@ def search_witnesses(ctx: Ctx) -> SearchResult:
 				rec = json.load(f)
 			if rec.get('witness'):
 				recs.append((fn, rec['witness']))
-	shared, known_sess = Session(ctx), Session(ctx)
+	shared, known_sess, regr_sess = Session(ctx), Session(ctx), Session(ctx)
+	each_fresh = ctx.tier != 'quick'   # quick: the regression cases share one session too (an App costs about a second)
 	for fresh, items in ((True, recs), (False, list(reversed(recs)))):
 		for fn, w in items:
 			calls = [(c[0], [tuple(a) if w.get('tuple_args') and isinstance(a, list) else a for a in c[1]]) for c in w['calls']]
 			before = len(res.findings)
-			# first pass: every regression case in a session of its own, the known-finding witnesses in one session in order;
+			# first pass: every regression case in a session of its own (quick tier: in one session, in order), the known-finding
+			# witnesses in one session in order;
 			# second pass: everything in one session in reverse order
-			sess = shared if not fresh else Session(ctx) if w.get('expect') == 'pass' else known_sess
+			sess = shared if not fresh else known_sess if w.get('expect') != 'pass' else Session(ctx) if each_fresh else regr_sess
 			check_program(sess, w['program'], calls, res, fn, 'witness')
 			got = sorted({f.key for f in res.findings[before:]})
 			name = w.get('regression_of') or w.get('expect_key')
@@ -430,6 +436,19 @@ def search_exprs(ctx: Ctx) -> SearchResult:
 					if rng.random() < 0.5:
 						t1, t2 = t2, t1
 					fns.append(f"{g.expr(t1, 1).at(X.P_OR)} if {rng.choice(['p', 'q', 'not p', 'a > 1'])} else {g.expr(t2, 1).at(X.P_TERN)}")
+					continue
+				if i == 3 and rng.random() < 0.6:
+					# an optional inferred from a ternary with None in either branch, or declared with None on either side, used as the value
+					# it holds (tranp unwraps an optional whichever side None stands on; calls whose optional is None raise in CPython and
+					# record nothing further)
+					val, uses = rng.choice([('xs', ['w[0]', 'w.copy()', '[z + 1 for z in w]', 'w[0:1]']), ('d', ['w["k"]', '[k2 for k2 in w.keys()]', 'w.get(s)']),
+						('t', ['w[0]', 'w[1]', 'w[1:]']), ('s', ['w.upper()', 'w[0]']), ('[a, c]', ['w[1]', '[z for z in w]']), ('{s: b}', ['w[s]', 'w.values()'])])
+					cnd = rng.choice(['p', 'q', 'not p', 'a > 1'])
+					w = rng.choice([f'None if {cnd} else {val}', f'{val} if {cnd} else None', rng.choice(['oln', 'ol']) if val == 'xs' else rng.choice(['odn', 'od']) if val == 'd'
+						else 'otn' if val == 't' else 'osn' if val == 's' else f'None if {cnd} else {val}'])
+					if w in ('odn', 'od'):
+						uses = ['w["k"]', '[k2 for k2 in w.keys()]', 'w.get(s)', '{k2: v2 for k2, v2 in w.items()}']
+					fns.append(f'0\n\tw = {w}\n\tu = {rng.choice(uses)}')
 					continue
 				if i == 0:
 					# one flat arithmetic chain per program (mixed operators of one precedence level, mixed int/bool/float operands)
@@ -504,6 +523,7 @@ STATEMENTS: dict[str, str] = {
 	'sound_iter / iter_type / iterates_user': 'the loop-variable type (IteratorTrait: __next__ before __iter__, Iterator<T> unwrapped) denotes every value the variable takes: list/dict/Iterator sources for EVERY element type (proved through the TemplateManipulator port), views, and user classes following either iterator-protocol form',
 	'sound_attr': 'r.a on an instance of a user class (instance variable, class variable, property) through the single-inheritance chain: inferred = declared type of the first member on the chain, and it denotes the value CPython reads (instance dict, then class); method calls and constructors are part of sound_conf',
 	'var_at / class_scope_rule': 'the Var handler over the environment induced by C08\'s symbol-table model (find_by_symbolic, allow_scope) answers the type of the symbol found; on the nested-class program a bare name in the nested class body / a method is the module-level symbol, directly in the class body the class variable',
+	'nullable_order_irrelevant / nullable_order_handlers': 'unwrapping an optional (_actualize_nullable) does not depend on the side None is written on: T | None and None | T both unwrap to T, so subscript, slice, attribute access and iteration answer the same for both spellings',
 	'list_literal_counterexample': 'known finding list-literal-class-dedup: [[None], [1]] is typed list<list<int>> (outside Core)',
 	'dict_get_counterexample': 'known finding dict-get-missing-key: d.get("z") typed int, CPython returns None (outside Core)',
 	'abs_bool_counterexample': 'known finding abs-of-bool: abs(True) typed bool, CPython: int',
@@ -518,9 +538,9 @@ PARTIAL = {
 		'literals, variables, unary/binary operators, comparisons, and/or/not, ternary, subscripts, slices, groups, list/dict comprehensions: soundness and totality on the model, by induction on expressions; '
 		'session independence for all expressions; template substitution of list.pop for all element types',
 	'correspondence_only': 'that the model IS the code: ProceduralResolver handlers, try_operation, TemplateManipulator path matching (stream infer, shared sessions = history), member lookup through the inheritance chain, on_relay, constructors, IteratorTrait, declaration typing of whole function bodies (stream infer-programs); CPython semantics of the core (stream pytype)',
-	'search_only': 'that the class-scope visibility rule equals CPython\'s scoping (LEGB) — the Lean side states the rule on C08\'s Scope model and checks it on the nested-class program, the equality with CPython is exhibited by the recorder search (shadowing through nested classes); Enum, user generics, nested classes, imports, resolve_unknown laziness, while/try/with, augmented and attribute assignments',
+	'search_only': 'that the class-scope visibility rule equals CPython\'s scoping (LEGB) — the Lean side states the rule on C08\'s Scope model and checks it on the nested-class program, the equality with CPython is exhibited by the recorder search (shadowing through nested classes); Enum, user generic classes and functions (the template port is proved for stub methods; the position rule of 68f934e is checked on examples), lambda parameters (typed from the callback parameter of the callee / the declared return type / the arguments of an immediate call), nested classes, imports, resolve_unknown laziness, while/try/with, augmented and attribute assignments',
 	'assumed_of_user_code (WorldConf)': 'constructor / method / property / class-variable / __next__ results conform to their DECLARED types (each method body\'s own typing obligation; method bodies are typed statement by statement by sound_decl / sound_conf but not executed by the model)',
-	'still_false_on_the_code (known findings)': 'list-literal-class-dedup, dict-get-missing-key, abs-of-bool, list-of-dict-items, boolop-nonbool-operands, tuple-slice-nonliteral-bounds, ternary-union-of-containers (each with a proved counterexample outside Core), min-max-mixed-numeric, union-of-subclasses-attribute, explicit-init-call, optional-template-none-argument, template-nonfirst-type-argument (floats / user classes / user generic functions are outside the model: corpus witness only); every one is generated at a low rate and replayed from corpus/C03 first',
+	'still_false_on_the_code (known findings)': 'list-literal-class-dedup, dict-get-missing-key, abs-of-bool, list-of-dict-items, boolop-nonbool-operands, tuple-slice-nonliteral-bounds, ternary-union-of-containers (each with a proved counterexample outside Core), min-max-mixed-numeric, union-of-subclasses-attribute, explicit-init-call, annotated-lambda-parameter (floats / user classes / lambdas are outside the model: corpus witness only); every one is generated at a low rate and replayed from corpus/C03 first',
 }
 
 ASSUMPTIONS = [
